@@ -319,6 +319,14 @@ def map_programs_c11(ctx, rng):
             for rep in range(2 if not ctx.thorough else 12):
                 progs.append(gen.map_program(rng, "Map", "", "", length=80, keys=keys, pin=one_chain_pin(keys, same_h),
                                              note="one-chain nk=%d same_h=%s" % (nk, same_h)))
+    # one chain on a table that is already above its grow threshold: inserts of absent keys into the full chain resize first
+    for nk in (4, 6, 9):
+        for rep in range(2 if not ctx.thorough else 10):
+            keys = ["k%d" % (j + 1) for j in range(nk)]
+            p = gen.map_program(rng, "Map", "", "", length=60, keys=keys, pin=one_chain_pin(keys, rep % 2 == 0), note="one-chain over threshold nk=%d" % nk,
+                                weights=[("Load", 6), ("Store", 6), ("LoadOrStore", 6), ("LoadAndStore", 4), ("LoadOrCompute", 10), ("Compute", 12), ("LoadAndDelete", 5), ("Delete", 5), ("Size", 1)])
+            p["ops"] = [{"op": "BulkStore", "lo": 1, "hi": 130}] + p["ops"]
+            progs.append(p)
     # bulk: cross every grow and shrink threshold on the way up and down, with scenario keys interleaved
     N = 3000 if not ctx.thorough else 40000
     for rep in range(2 if not ctx.thorough else 6):
@@ -524,6 +532,16 @@ def run_conc(ctx, scenarios, spec, prop, label, c13=False):
     return runs, stats
 
 
+def random_scenarios(ctx, kinds, cache=False):
+    rng = random.Random(lib.seed() * 6151 + (1 if cache else 0))
+    n, runs = (14, 250) if not ctx.thorough else (300, 1500)
+    scs = []
+    for (kind, kt, vt) in kinds:
+        f = scen.random_cache_scenarios if cache else scen.random_map_scenarios
+        scs += f(kind, kt, vt, rng, n, runs, lib.seed() * 1000)
+    return scs
+
+
 def map_scenarios(ctx, kinds, pick=None):
     scs = []
     for (kind, kt, vt) in kinds:
@@ -536,11 +554,13 @@ def map_scenarios(ctx, kinds, pick=None):
 
 def check_c03(ctx):
     run_conc(ctx, map_scenarios(ctx, [("Map", "", "")]), "Trace_MapLin", "C03", "Map families")
+    run_conc(ctx, random_scenarios(ctx, [("Map", "", "")]), "Trace_MapLin", "C03", "Map random programs")
 
 
 def check_c04(ctx):
     kinds = [("MapOf", "string", "any"), ("MapOf", "int", "int"), ("MapOf", "struct", "string")]
     run_conc(ctx, map_scenarios(ctx, kinds), "Trace_MapLin", "C04", "MapOf families")
+    run_conc(ctx, random_scenarios(ctx, kinds[:2]), "Trace_MapLin", "C04", "MapOf random programs")
 
 
 CHECKS["C03"] = check_c03
@@ -560,6 +580,7 @@ def cache_scenarios(ctx, kinds, pick=None):
 def check_c02(ctx):
     kinds = [("Cache", "", ""), ("CacheOf", "string", "any")] + ([("CacheOf", "int", "int")] if ctx.thorough else [])
     run_conc(ctx, cache_scenarios(ctx, kinds), "Trace_CacheLin", "C02", "cache families")
+    run_conc(ctx, random_scenarios(ctx, kinds[:2], cache=True), "Trace_CacheLin", "C02", "cache random programs")
 
 
 CHECKS["C02"] = check_c02
